@@ -96,6 +96,15 @@ def register(add, NOTE):
         "elements + mirror elements (incl. grounded pulses), same fields at half power = +3.0103 dB (interval). PARTIAL: equality of the "
         "solutions of the ground system and the mirrored free-space system is measured on the real code (generated mirror antennas).",
         "Rocq proof (ingredients of image theory) + correspondence + mirrored-antenna oracle", "DESIGN.md §6 C03", note=NOTE + PART)
+    add("C04",
+        "compute_near_field / nf_helper / psi_near_field_56 are a Gallina model that reproduces E and H of the real code to 4e-13 of max|E| at "
+        "random points of random solved antennas (free space and ideal ground). Theorems: the E kernel of every pulse IS the impedance-matrix "
+        "expression of C02 for a virtual test dipole at the observation point (so each source half enters with its own direction, sign, "
+        "radius and length), for every potential functional that sees only distances, which the code's psi is proved to be; H is the "
+        "central-difference curl of the vector potential of the same pulses; both fields are linear in the currents and scale with "
+        "sqrt(P_req/P); the extracted constants give 4 pi m w = 377.2 ohm for every frequency (interval). PARTIAL: the 1 % agreement with "
+        "-jwA - grad Phi of currents and charges, and the far-zone limits, are measured by adaptive quadrature on independent geometry.",
+        "Rocq proof over a path-faithful model + point-wise vm_compute correspondence + field oracle", "DESIGN.md §6 C04, App. A.4", note=NOTE + PART)
     add("C05",
         "Theorems: the potential integral is invariant under rotations of the chord and sees only differences; thin-kernel EM scaling 1/s; "
         "rotations are isometries composed X,Y,Z; scaling multiplies lengths. PARTIAL: invariance of currents / impedances / pattern of "
